@@ -116,6 +116,7 @@ fn main() {
 			let first: Vec<u64> = net.trace.iter().filter_map(|o| if let Obs::Balance { node, value_to_self_msat, .. } = o { Some((*node, *value_to_self_msat)) } else { None }).take(2).map(|x| x.1).collect();
 			if first.len() < 2 { rec.discarded += 1; continue; }
 			let dets = net.nodes[0].node.list_channels();
+			if dets.is_empty() { rec.discarded += 1; std::mem::forget(net); continue; } // channel gone (reported by the oracles above)
 			let det = &dets[0];
 			let feerate = det.feerate_sat_per_1000_weight.unwrap_or(253);
 			let ty = { let t = det.channel_type.as_ref().unwrap(); if t.supports_anchor_zero_fee_commitments() { "z" } else if t.supports_anchors_zero_fee_htlc_tx() { "a" } else { "l" } };
